@@ -161,4 +161,29 @@ def shardAwarePortOf (o : Supported) (tls : Bool) : Option Nat :=
   | some [] => none
   | some (v :: _) => parseU16 v
 
+/-! ### the random shard fill-in of the load-balancing plan
+
+`Plan::with_random_shard_if_unknown` (`scylla/src/policies/load_balancing/plan.rs:94-107`) is the other place where the
+driver PRODUCES a shard number: a policy may return `(node, None)`, and the plan then draws
+`rng().random_range(0..nr_shards)` with `nr_shards = node.sharder().map(|s| s.nr_shards.get()).unwrap_or(1)`.
+An explicit shard `Some(s)` is passed through untouched (not validated here: C12/C13). -/
+
+/-- The exclusive upper bound handed to `random_range`: the node's shard count, 1 for a node without a sharder. -/
+def fillCount (sharder : Option Nat) : Nat :=
+  match sharder with
+  | some n => n
+  | none => 1
+
+/-- `with_random_shard_if_unknown`; `r` is what `random_range(0..fillCount)` returned (the RNG's contract: `r` lies in
+the half-open range - the bound is an argument of the theorems, not baked in with a `%`). -/
+def withRandomShard (explicit : Option Nat) (r : Nat) : Nat :=
+  match explicit with
+  | some s => s
+  | none => r
+
+/-- What a whole plan yields for the entries a policy returned: `(node's sharder, entry's shard)` per entry, one
+random draw per entry. -/
+def planShards (entries : List (Option Nat × Option Nat)) (draws : Nat → Nat) : List (Option Nat × Nat) :=
+  (List.range entries.length).zip entries |>.map (fun (i, (sharder, explicit)) => (sharder, withRandomShard explicit (draws i)))
+
 end ScyllaVerif.C11Connect
